@@ -122,154 +122,161 @@ def run(index, rep, tier):
     cm = index.klass(CM)
 
     # ---- R19.1
-    nloops = 0
-    for fi in index.functions_in_module(MOD):
-        for w, ok, cond_names, assigned in loop_invariant_whiles(fi):
-            nloops += 1
-            rep.check(ok, "R19.1", fi.qualname, norm_stmt(w), fn_where(fi, w),
-                      "while-loop `%s` in %s" % (norm(w.test), fi.qualname),
-                      "loop condition `%s` mentions %s, none of which the body assigns or can mutate (it assigns %s) and the body has no break/return/raise: once entered the loop never ends"
-                      % (norm(w.test), sorted(cond_names), sorted(assigned)))
-    rep.floor("R19.1", "while loops in charmatrixmodel", 3, nloops)
+    with rep.section("R19.1"):
+        nloops = 0
+        for fi in index.functions_in_module(MOD):
+            for w, ok, cond_names, assigned in loop_invariant_whiles(fi):
+                nloops += 1
+                rep.check(ok, "R19.1", fi.qualname, norm_stmt(w), fn_where(fi, w),
+                          "while-loop `%s` in %s" % (norm(w.test), fi.qualname),
+                          "loop condition `%s` mentions %s, none of which the body assigns or can mutate (it assigns %s) and the body has no break/return/raise: once entered the loop never ends"
+                          % (norm(w.test), sorted(cond_names), sorted(assigned)))
+        rep.floor("R19.1", "while loops in charmatrixmodel", 3, nloops)
 
     # ---- R19.2 / R19.3
-    n_ops = 0
-    for name in ROW_OPS:
-        fi = index.function(CM + "." + name)
-        n_ops += 1
+    with rep.section("R19.2 / R19.3"):
+        n_ops = 0
+        for name in ROW_OPS:
+            fi = index.function(CM + "." + name)
+            n_ops += 1
+            cfg = cfg_of(fi)
+            arg = [p for p in fi.params if p != "self"][0]
+            guards = [(n, r) for n, r in find_namespace_guards(cfg) if {r[0], r[1]} == {"self", arg}]
+            wnodes = []
+            for w in writes_in(fi.node):
+                if w.attr == "_taxon_sequence_map":
+                    wnodes.extend(stmt_nodes(cfg, w.stmt))
+            gids = {g.id for g, _ in guards}
+            ok = bool(guards) and all(cfg.dominated_by(wn, lambda n: n.id in gids) for wn in wnodes)
+            rep.check(ok, "R19.2", fi.qualname, "namespace identity guard", fn_where(fi),
+                      "%s: `%s.taxon_namespace is not self.taxon_namespace` -> raise dominates %d row-store writes" % (name, arg, len(wnodes)),
+                      "%s writes the row store without first refusing a matrix over a different namespace" % fi.qualname)
+            _r19_3(rep, fi, [arg])
+        fi = index.function(CM + ".concatenate")
         cfg = cfg_of(fi)
-        arg = [p for p in fi.params if p != "self"][0]
-        guards = [(n, r) for n, r in find_namespace_guards(cfg) if {r[0], r[1]} == {"self", arg}]
-        wnodes = []
-        for w in writes_in(fi.node):
-            if w.attr == "_taxon_sequence_map":
-                wnodes.extend(stmt_nodes(cfg, w.stmt))
+        guards = find_namespace_guards(cfg)
+        ext = [n for n in cfg.nodes if any(call_name(c) == "extend_matrix" for c in node_calls(n))]
         gids = {g.id for g, _ in guards}
-        ok = bool(guards) and all(cfg.dominated_by(wn, lambda n: n.id in gids) for wn in wnodes)
+        ok = bool(guards) and bool(ext) and all(cfg.dominated_by(e, lambda n: n.id in gids) for e in ext)
         rep.check(ok, "R19.2", fi.qualname, "namespace identity guard", fn_where(fi),
-                  "%s: `%s.taxon_namespace is not self.taxon_namespace` -> raise dominates %d row-store writes" % (name, arg, len(wnodes)),
-                  "%s writes the row store without first refusing a matrix over a different namespace" % fi.qualname)
-        _r19_3(rep, fi, [arg])
-    fi = index.function(CM + ".concatenate")
-    cfg = cfg_of(fi)
-    guards = find_namespace_guards(cfg)
-    ext = [n for n in cfg.nodes if any(call_name(c) == "extend_matrix" for c in node_calls(n))]
-    gids = {g.id for g, _ in guards}
-    ok = bool(guards) and bool(ext) and all(cfg.dominated_by(e, lambda n: n.id in gids) for e in ext)
-    rep.check(ok, "R19.2", fi.qualname, "namespace identity guard", fn_where(fi),
-              "concatenate: per-matrix namespace test dominates extend_matrix(cm)",
-              "concatenate extends with a matrix whose namespace was not compared with the first matrix's")
-    _r19_3(rep, fi, ["char_matrices"])
-    rep.floor("R19.2", "row operations", 5, n_ops)
+                  "concatenate: per-matrix namespace test dominates extend_matrix(cm)",
+                  "concatenate extends with a matrix whose namespace was not compared with the first matrix's")
+        _r19_3(rep, fi, ["char_matrices"])
+        rep.floor("R19.2", "row operations", 5, n_ops)
 
     # ---- R19.4
-    nops = 0
-    for fi in index.methods_of(SEQ):
-        nops += parallel_lists_rule(rep, "R19.4", fi, CELL_LISTS)
-    rep.floor("R19.4", "length-changing operations on the cell lists", 9, nops)
+    with rep.section("R19.4"):
+        nops = 0
+        for fi in index.methods_of(SEQ):
+            nops += parallel_lists_rule(rep, "R19.4", fi, CELL_LISTS)
+        rep.floor("R19.4", "length-changing operations on the cell lists", 9, nops)
 
     # ---- R19.5
-    fi = index.function(CM + ".export_character_indices")
-    dels = []
-    for f in walk_no_nested(fi.node):
-        if isinstance(f, ast.For):
-            for n in ast.walk(f):
-                if isinstance(n, ast.Delete) and any(isinstance(t, ast.Subscript) for t in n.targets):
-                    dels.append((f, n))
-    inner = {}
-    for f, d in dels:
-        inner[d] = f  # innermost loop wins because walk is outer-first
-    if not inner:
-        raise AnalysisError("R19.5: export_character_indices no longer deletes cells in a loop; shape not recognised")
-    pm = {}
-    for p in ast.walk(fi.node):
-        for c in ast.iter_child_nodes(p):
-            pm[c] = p
-    for d, f in inner.items():
-        it = f.iter
-        descending = False
-        if isinstance(it, ast.Call) and call_name(it) == "range" and len(it.args) == 3:
-            st = it.args[2]
-            descending = isinstance(st, ast.UnaryOp) and isinstance(st.op, ast.USub)
-        if isinstance(it, ast.Call) and call_name(it) == "reversed":
-            descending = True
-        rep.check(descending, "R19.5", fi.qualname, "deletion loop order: " + norm(it), fn_where(fi, f),
-                  "cells are deleted while iterating `%s` (must run from the high end)" % norm(it),
-                  "cells are deleted from a sequence while its indices are iterated in ascending order; later indices shift and the wrong columns survive")
-        # guard polarity
-        g = pm.get(d)
-        while g is not None and not isinstance(g, ast.If):
-            g = pm.get(g)
-        ok = False
-        why = "deletion is not guarded by a membership test on the requested index set"
-        if isinstance(g, ast.If) and g is not None and d in g.body or (isinstance(g, ast.If) and any(d is x or d in ast.walk(x) for x in g.body)):
-            cp = compare_parts(g.test)
-            loopvar = norm(f.target)
-            sub = [t for t in d.targets if isinstance(t, ast.Subscript)][0]
-            if cp and cp[1] == "NotIn" and norm(cp[0]) == loopvar and norm(sub.slice) == loopvar:
-                ok = True
-            elif cp and cp[1] == "In":
-                why = "deletion happens when the index IS in the requested set (inverted selection)"
-        rep.check(ok, "R19.5", fi.qualname, "deletion guard: " + (norm(g.test) if isinstance(g, ast.If) else "<none>"), fn_where(fi, d),
-                  "del %s guarded by `%s`" % (norm(d.targets[0]), norm(g.test) if isinstance(g, ast.If) else "<none>"), why)
+    with rep.section("R19.5"):
+        fi = index.function(CM + ".export_character_indices")
+        dels = []
+        for f in walk_no_nested(fi.node):
+            if isinstance(f, ast.For):
+                for n in ast.walk(f):
+                    if isinstance(n, ast.Delete) and any(isinstance(t, ast.Subscript) for t in n.targets):
+                        dels.append((f, n))
+        inner = {}
+        for f, d in dels:
+            inner[d] = f  # innermost loop wins because walk is outer-first
+        if not inner:
+            raise AnalysisError("R19.5: export_character_indices no longer deletes cells in a loop; shape not recognised")
+        pm = {}
+        for p in ast.walk(fi.node):
+            for c in ast.iter_child_nodes(p):
+                pm[c] = p
+        for d, f in inner.items():
+            it = f.iter
+            descending = False
+            if isinstance(it, ast.Call) and call_name(it) == "range" and len(it.args) == 3:
+                st = it.args[2]
+                descending = isinstance(st, ast.UnaryOp) and isinstance(st.op, ast.USub)
+            if isinstance(it, ast.Call) and call_name(it) == "reversed":
+                descending = True
+            rep.check(descending, "R19.5", fi.qualname, "deletion loop order: " + norm(it), fn_where(fi, f),
+                      "cells are deleted while iterating `%s` (must run from the high end)" % norm(it),
+                      "cells are deleted from a sequence while its indices are iterated in ascending order; later indices shift and the wrong columns survive")
+            # guard polarity
+            g = pm.get(d)
+            while g is not None and not isinstance(g, ast.If):
+                g = pm.get(g)
+            ok = False
+            why = "deletion is not guarded by a membership test on the requested index set"
+            if isinstance(g, ast.If) and g is not None and d in g.body or (isinstance(g, ast.If) and any(d is x or d in ast.walk(x) for x in g.body)):
+                cp = compare_parts(g.test)
+                loopvar = norm(f.target)
+                sub = [t for t in d.targets if isinstance(t, ast.Subscript)][0]
+                if cp and cp[1] == "NotIn" and norm(cp[0]) == loopvar and norm(sub.slice) == loopvar:
+                    ok = True
+                elif cp and cp[1] == "In":
+                    why = "deletion happens when the index IS in the requested set (inverted selection)"
+            rep.check(ok, "R19.5", fi.qualname, "deletion guard: " + (norm(g.test) if isinstance(g, ast.If) else "<none>"), fn_where(fi, d),
+                      "del %s guarded by `%s`" % (norm(d.targets[0]), norm(g.test) if isinstance(g, ast.If) else "<none>"), why)
 
     # ---- R19.6
-    fi = index.function(CM + ".concatenate")
-    rng = None
-    for n in walk_no_nested(fi.node):
-        if isinstance(n, ast.Assign) and isinstance(n.value, ast.Call) and call_name(n.value) == "range" and len(n.value.args) == 2:
-            rng = n
-    if rng is None:
-        raise AnalysisError("R19.6: concatenate no longer builds the subset from range(start, stop); shape not recognised")
-    a, b = rng.value.args
-    ok = False
-    msg = "subset range is not of the form range(p, p + width)"
-    if isinstance(a, ast.Name) and isinstance(b, ast.BinOp) and isinstance(b.op, ast.Add) and norm(b.left) == a.id:
-        width = norm(b.right)
-        adv = [n for n in walk_no_nested(fi.node) if isinstance(n, ast.AugAssign) and isinstance(n.op, ast.Add)
-               and norm(n.target) == a.id]
-        ok = any(norm(n.value) == width for n in adv) and all(norm(n.value) == width for n in adv)
-        msg = "position advances by %s but the subset spans %s" % ([norm(n.value) for n in adv], width)
-        # the subset var must be what is handed to new_character_subset
-        tgt = norm(rng.targets[0])
-        used = any(call_name(c) == "new_character_subset" and any(norm(k.value) == tgt for k in c.keywords if k.arg == "character_indices")
-                   or (call_name(c) == "new_character_subset" and any(norm(x) == tgt for x in c.args)) for c in calls_in(fi.node))
-        if not used:
-            ok, msg = False, "range built but not handed to new_character_subset"
-    rep.check(ok, "R19.6", fi.qualname, norm_stmt(rng), fn_where(fi, rng), "subset columns = " + norm(rng.value), msg)
+    with rep.section("R19.6"):
+        fi = index.function(CM + ".concatenate")
+        rng = None
+        for n in walk_no_nested(fi.node):
+            if isinstance(n, ast.Assign) and isinstance(n.value, ast.Call) and call_name(n.value) == "range" and len(n.value.args) == 2:
+                rng = n
+        if rng is None:
+            raise AnalysisError("R19.6: concatenate no longer builds the subset from range(start, stop); shape not recognised")
+        a, b = rng.value.args
+        ok = False
+        msg = "subset range is not of the form range(p, p + width)"
+        if isinstance(a, ast.Name) and isinstance(b, ast.BinOp) and isinstance(b.op, ast.Add) and norm(b.left) == a.id:
+            width = norm(b.right)
+            adv = [n for n in walk_no_nested(fi.node) if isinstance(n, ast.AugAssign) and isinstance(n.op, ast.Add)
+                   and norm(n.target) == a.id]
+            ok = any(norm(n.value) == width for n in adv) and all(norm(n.value) == width for n in adv)
+            msg = "position advances by %s but the subset spans %s" % ([norm(n.value) for n in adv], width)
+            # the subset var must be what is handed to new_character_subset
+            tgt = norm(rng.targets[0])
+            used = any(call_name(c) == "new_character_subset" and any(norm(k.value) == tgt for k in c.keywords if k.arg == "character_indices")
+                       or (call_name(c) == "new_character_subset" and any(norm(x) == tgt for x in c.args)) for c in calls_in(fi.node))
+            if not used:
+                ok, msg = False, "range built but not handed to new_character_subset"
+        rep.check(ok, "R19.6", fi.qualname, norm_stmt(rng), fn_where(fi, rng), "subset columns = " + norm(rng.value), msg)
 
     # ---- R19.8: the label probe and the insertion consult the same container
-    rep.rule("R19.8", "concatenate: the uniqueness probe for a subset label tests membership in the very mapping the insertion tests (<matrix>.character_subsets, a case-insensitive mapping), not in a derived snapshot")
-    ncs = [c for c in calls_in(fi.node) if call_name(c) == "new_character_subset" and isinstance(c.func, ast.Attribute)]
-    if not ncs:
-        raise AnalysisError("R19.8: concatenate no longer calls new_character_subset")
-    for c in ncs:
-        lab = get_kwarg(c, "label") or (c.args[0] if c.args else None)
-        recv = norm(c.func.value)
-        probes = []
-        if isinstance(lab, ast.Name):
-            for w in walk_no_nested(fi.node):
-                if isinstance(w, (ast.While, ast.If)):
-                    for t in ast.walk(w.test):
-                        if isinstance(t, ast.Compare) and len(t.ops) == 1 and isinstance(t.ops[0], (ast.In, ast.NotIn)) and norm(t.left) == lab.id:
-                            probes.append(t)
-        ok = bool(probes) and all(norm(t.comparators[0]) == recv + ".character_subsets" for t in probes)
-        what = "; ".join(norm(t) for t in probes) or "no membership probe on the label"
-        rep.check(ok, "R19.8", fi.qualname, "subset label probed in a different container: %s" % what[:80], fn_where(fi, probes[0] if probes else c),
-                  "the label handed to %s.new_character_subset is probed in %s.character_subsets" % (recv, recv),
-                  "concatenate chooses the subset label with `%s` but inserts it through %s.new_character_subset, which rejects labels already in %s.character_subsets - a case-insensitive mapping: a probe through a snapshot/derived collection compares case-sensitively (or goes stale), so labels differing only in case pass the probe and the insertion raises, or a subset is overwritten" % (what[:120], recv, recv))
+    with rep.section("R19.8: the label probe and the insertion consult the same container"):
+        rep.rule("R19.8", "concatenate: the uniqueness probe for a subset label tests membership in the very mapping the insertion tests (<matrix>.character_subsets, a case-insensitive mapping), not in a derived snapshot")
+        ncs = [c for c in calls_in(fi.node) if call_name(c) == "new_character_subset" and isinstance(c.func, ast.Attribute)]
+        if not ncs:
+            raise AnalysisError("R19.8: concatenate no longer calls new_character_subset")
+        for c in ncs:
+            lab = get_kwarg(c, "label") or (c.args[0] if c.args else None)
+            recv = norm(c.func.value)
+            probes = []
+            if isinstance(lab, ast.Name):
+                for w in walk_no_nested(fi.node):
+                    if isinstance(w, (ast.While, ast.If)):
+                        for t in ast.walk(w.test):
+                            if isinstance(t, ast.Compare) and len(t.ops) == 1 and isinstance(t.ops[0], (ast.In, ast.NotIn)) and norm(t.left) == lab.id:
+                                probes.append(t)
+            ok = bool(probes) and all(norm(t.comparators[0]) == recv + ".character_subsets" for t in probes)
+            what = "; ".join(norm(t) for t in probes) or "no membership probe on the label"
+            rep.check(ok, "R19.8", fi.qualname, "subset label probed in a different container: %s" % what[:80], fn_where(fi, probes[0] if probes else c),
+                      "the label handed to %s.new_character_subset is probed in %s.character_subsets" % (recv, recv),
+                      "concatenate chooses the subset label with `%s` but inserts it through %s.new_character_subset, which rejects labels already in %s.character_subsets - a case-insensitive mapping: a probe through a snapshot/derived collection compares case-sensitively (or goes stale), so labels differing only in case pass the probe and the insertion raises, or a subset is overwritten" % (what[:120], recv, recv))
 
     # ---- R19.7
-    nfor = 0
-    for fi in index.methods_of(CM):
-        for f, txt, bad in dict_mutated_while_iterated(fi):
-            if "_taxon_sequence_map" not in txt and txt != "self":
-                continue
-            nfor += 1
-            rep.check(bad is None, "R19.7", fi.qualname, norm_stmt(f), fn_where(fi, f),
-                      "for-loop over %s in %s" % (txt, fi.name),
-                      "the loop iterates %s directly and its body resizes it (%s): RuntimeError / skipped rows" % (txt, norm(bad) if bad is not None else ""))
-    rep.floor("R19.7", "for-loops over the row store", 5, nfor)
+    with rep.section("R19.7"):
+        nfor = 0
+        for fi in index.methods_of(CM):
+            for f, txt, bad in dict_mutated_while_iterated(fi):
+                if "_taxon_sequence_map" not in txt and txt != "self":
+                    continue
+                nfor += 1
+                rep.check(bad is None, "R19.7", fi.qualname, norm_stmt(f), fn_where(fi, f),
+                          "for-loop over %s in %s" % (txt, fi.name),
+                          "the loop iterates %s directly and its body resizes it (%s): RuntimeError / skipped rows" % (txt, norm(bad) if bad is not None else ""))
+        rep.floor("R19.7", "for-loops over the row store", 5, nfor)
 
 
 def _r19_3(rep, fi, seeds):
